@@ -23,7 +23,16 @@ for f in sorted(glob.glob("/verif/seeded/*/meta.json")):
                 title = line.strip("# \n")
                 break
     sigs = m["check_signatures"]
-    rows.append((m["id"], ", ".join(os.path.basename(x) for x in files), title[:110], "caught" if m["check_exit"] == 1 else "MISSED", "; ".join(sigs[:2]) + (" ..." if len(sigs) > 2 else ""), ok))
+    verdict = "caught" if m["check_exit"] == 1 else "MISSED"
+    rc = m.get("recheck")
+    if rc:
+        if not rc.get("applies"):
+            verdict += f"; DOES NOT APPLY to {rc['head']}"
+        else:
+            good = rc["demo_exit_with_change"] == 1 and rc["demo_exit_without_change"] == 0 and rc["check_exit"] == 1
+            verdict = ("caught" if rc["check_exit"] == 1 else "MISSED") + f" (re-confirmed at {rc['head']}" + ("" if good else f": demo {rc['demo_exit_with_change']}/{rc['demo_exit_without_change']}") + ")"
+            sigs = rc["check_signatures"] or sigs
+    rows.append((m["id"], ", ".join(os.path.basename(x) for x in files), title[:110], verdict, "; ".join(sigs[:2]) + (" ..." if len(sigs) > 2 else ""), ok))
 if "--md" in sys.argv:
     print("| Change | File | What (seeding agent's title) | Verdict of the property's check | First signatures |")
     print("|---|---|---|---|---|")
